@@ -33,6 +33,12 @@ pub mod model {
     pub use super::Mode;
     pub fn set_mode(m: Mode) {
         super::MODE.with(|c| c.set(m));
+        // hash collections are walked in an arbitrary order too (fresh hash keys per instance and per run)
+        symrt::hashmodel::set_order(match m {
+            Mode::Sequential => symrt::hashmodel::Order::Insertion,
+            Mode::Reversed => symrt::hashmodel::Order::Reversed,
+            Mode::Explore => symrt::hashmodel::Order::Explore,
+        });
         let t = match m {
             Mode::Sequential => 1,
             Mode::Reversed => 4,
